@@ -645,6 +645,14 @@ class HPlateObserver(Handler):
             if arr.size != len(vals):
                 M.violate(['C10'], 'OBS', f'C10:{which}_wrong_shape', {'got': arr.size, 'wells': len(vals)})
                 return
+            # "rounded to the configured precision": a reported value carries no more digits than configured for its unit
+            scale = 10.0 ** prec
+            for g in arr:
+                x_ = float(g) * scale
+                if math.isfinite(x_) and abs(x_ - round(x_)) > 1e-6 * max(1.0, abs(x_)):
+                    M.violate(['C10'], 'OBS', f'C10:{which}_not_rounded_to_the_configured_precision',
+                              {'unit': unit, 'unit_argument': a.get('unit'), 'configured_digits': prec, 'got': float(g)})
+                    break
             for k, ((v, t), g) in enumerate(zip(vals, arr)):
                 if not M.ratio('OBS.plate', float(g), v, t + half):
                     M.violate(['C10'], 'OBS', f'C10:{which}_ne_definition:{b}',
